@@ -27,9 +27,31 @@ REJECTED = [
 ]
 
 
+DECOY = b"# the target named by the configuration file, not the one asked for\n"
+
+
 def run_cli(root, mode, main="main.oal", target="out.yaml", base=None, timeout=60):
     if mode == "options":
         args = ["-m", main, "-t", target] + (["-b", base] if base else [])
+    elif mode == "mixed":
+        # options and configuration file together: every option given on the command line wins
+        # (Config::main, target, base: `args.or(file)`); the entries of the file name decoys
+        with open(os.path.join(root, "cfgmain.oal"), "w") as f:
+            f.write("let a = ;\n")
+        with open(os.path.join(root, "cfgbase.yaml"), "w") as f:
+            f.write("openapi: [unclosed\n")
+        with open(os.path.join(root, "cfgout.yaml"), "wb") as f:
+            f.write(DECOY)
+        with open(os.path.join(root, "conf.toml"), "w") as f:
+            f.write('[api]\nmain = "cfgmain.oal"\ntarget = "cfgout.yaml"\n' + ('base = "cfgbase.yaml"\n' if base else ""))
+        args = ["-c", "conf.toml", "-m", main, "-t", target] + (["-b", base] if base else [])
+    elif mode == "mixed-target":
+        # the file gives main (and base), the command line only the target
+        with open(os.path.join(root, "cfgout.yaml"), "wb") as f:
+            f.write(DECOY)
+        with open(os.path.join(root, "conf.toml"), "w") as f:
+            f.write('[api]\nmain = "%s"\ntarget = "cfgout.yaml"\n' % main + ('base = "%s"\n' % base if base else ""))
+        args = ["-c", "conf.toml", "-t", target]
     else:
         with open(os.path.join(root, "conf.toml"), "w") as f:
             f.write('[api]\nmain = "%s"\ntarget = "%s"\n' % (main, target) + ('base = "%s"\n' % base if base else ""))
@@ -112,6 +134,9 @@ def one_case(ctx, idx, kind, files, mode, base_kind, target_exists, expect_ok_hi
             ctx.violation("oal-cli fails without any diagnostic", inp, "a diagnostic on stderr", "(empty)")
         elif kind not in ("config",) and base_kind not in ("bad", "missing") and not LOCATED.search(err):
             ctx.violation("the diagnostic of oal-cli is not located in the sources", inp, "a reference to the source file", err[-300:])
+    if mode.startswith("mixed") and read(os.path.join(root, "cfgout.yaml")) != DECOY:
+        ctx.violation("oal-cli wrote to the target of the configuration file although another target was given on the command line",
+                      inp, "cfgout.yaml untouched", "modified")
     for other in files:
         if read(os.path.join(root, other)) != files[other].encode():
             ctx.violation("oal-cli modified a source file", inp, "untouched", other)
@@ -187,8 +212,8 @@ def check(ctx):
         files = {l.rsplit("/", 1)[1]: t for l, t in p["mods"].items()}
         cases.append(("accepted", files))
     cases.append(("accepted-long-then-short", {"main.oal": "res / on get -> <>;\n"}))
-    for kind, files in cases:
-        for mode in (["options", "config"] if (ctx.thorough or idx % 2 == 0) else ["options"]):
+    for ci, (kind, files) in enumerate(cases):
+        for mode in (["options", "config", "mixed", "mixed-target"] if ctx.thorough else [["options", "config"], ["mixed"], ["options", "mixed-target"], ["config", "mixed"]][ci % 4]):
             for base_kind in (["none", "good", "bad"] if ctx.thorough else [["none", "good"], ["none", "bad"], ["good", "missing"]][idx % 3]):
                 idx += 1
                 one_case(ctx, idx, kind, files, mode, base_kind, target_exists=(idx % 3 != 0))
@@ -218,7 +243,7 @@ def check(ctx):
     ctx.cov["distinct_nontrivial"] = len([c for c in cases])
     ctx.cov["traces_validated_against_impl"] = ctx.cov["evaluations"]
     ctx.cov["rule"] = ("12 sources rejected at each phase (lexical, syntax, scope, duplicate, type, recursion, evaluation, imports, annotation YAML) and generated "
-                       "accepted programs (1-3 modules) x {options, config file} x {no base, good base, bad base, missing base} x {target exists with longer "
+                       "accepted programs (1-3 modules) x {options, config file, options over a config file naming decoys, target option over a config file} x {no base, good base, bad base, missing base} x {target exists with longer "
                        "content, target absent}; outcome compared with the same pipeline run in memory; single-file sources also through oal_wasm::compile and a "
                        "fresh oal-lsp. distinct_nontrivial = number of distinct source sets")
     ctx.assumptions = ["crash atomicity of std::fs::write is a run-time/OS matter outside the model",
